@@ -1,4 +1,5 @@
 import O2oModel.Tok
+import O2oModel.GenTypes
 import O2oModel.Syn
 import O2oModel.Generated
 import O2oModel.Attr
